@@ -19,7 +19,7 @@ def sh(cmd, **kw):
 shutil.rmtree(snap, ignore_errors=True)
 sh(f"git -C /repo worktree remove --force {wt}; git -C /repo worktree prune")
 os.makedirs(snap)
-sh(f"rsync -a --exclude .git --exclude replays --exclude out --exclude seeded --exclude mutants --exclude evidence {ROOT}/ {snap}/")
+sh(f"rsync -a --exclude /.git --exclude /replays --exclude /out --exclude /seeded --exclude /mutants --exclude /evidence {ROOT}/ {snap}/")
 r = sh(f"git -C /repo worktree add --detach {wt} HEAD")
 assert r.returncode == 0, r.stderr
 ct = open(f"{snap}/sim/Cargo.toml").read().replace('path = "/repo"', f'path = "{wt}"')
